@@ -6,6 +6,7 @@ require (
 	github.com/absolute8511/redcon v0.9.3
 	github.com/absolute8511/redigo v1.4.6
 	github.com/anishathalye/porcupine v1.3.0
+	github.com/gobwas/glob v0.2.3
 	github.com/julienschmidt/httprouter v1.2.0
 	github.com/youzan/ZanRedisDB v0.0.0
 	github.com/youzan/go-zanredisdb v0.6.3
@@ -35,7 +36,6 @@ require (
 	github.com/dustin/go-humanize v1.0.0 // indirect
 	github.com/emirpasic/gods v1.12.0 // indirect
 	github.com/getsentry/raven-go v0.2.0 // indirect
-	github.com/gobwas/glob v0.2.3 // indirect
 	github.com/gogo/protobuf v1.3.1 // indirect
 	github.com/golang/protobuf v1.3.2 // indirect
 	github.com/golang/snappy v0.0.2-0.20190904063534-ff6b7dc882cf // indirect
